@@ -25,6 +25,8 @@ Signatures reported by the monitor:
   cli:schema-failure        a schema failure did not stop the run with status 1 and one diagnostic
   cli:usage                 `--error-format` with `--output pretty` was not refused (or a legal combination was)
   cli:exception             an exception other than the library's documented one escaped `run`
+  cli:undecodable-file-aborts  a file that is not valid text (UnicodeDecodeError) aborts the run instead of
+                            yielding a parse-error diagnostic and letting the remaining instances be processed
   cli:subprocess            `python -m jsonschema` disagrees with the in-process run
 """
 import collections
@@ -32,6 +34,7 @@ import contextlib
 import io
 import itertools
 import json
+import locale
 import os
 import re
 import shutil
@@ -60,17 +63,17 @@ PLAN = dict(
     assumptions=[
         "A-json: instances and schemas are finite trees of JSON values with Unicode-scalar strings and finite numbers; dict order = insertion order",
         "correspondence is sampled: agreement of model and implementation on the generated cases is assumed to extend to the others",
-        "A-files: a file is missing (ENOENT), not JSON (JSONDecodeError) or a JSON value; other OSErrors, undecodable bytes and NaN/Infinity literals are outside the model",
+        "A-files: a file is missing (ENOENT), not JSON (JSONDecodeError, or bytes that are not text in the locale encoding: UnicodeDecodeError) or a JSON value; other OSErrors and NaN/Infinity literals are outside the model",
         "A-render: the wording of diagnostics is rendered by the harness from the model's events with a copy of cli.py's format strings, the real repr/str.format and ValidationError.__str__; tracebacks of pretty-mode parse errors are matched by a pattern",
         "A-url: urllib.parse functions as oracles; --base-uri scenarios retrieve sibling files through file:// URIs read by the harness",
         "an uncaught exception ends the interpreter with status 1",
     ],
-    rule="schema file {missing, not JSON (3 texts), rejected by check_schema, valid} x instance lists of length 0-5 over "
-         "{missing, not JSON, invalid with 1-3 errors, valid}: every combination in every order for length <= 3 under "
+    rule="schema file {missing, not JSON (6 texts, 4 undecodable byte strings), rejected by check_schema, valid} x instance lists of length 0-5 over "
+         "{missing, not JSON (text or undecodable bytes), invalid with 1-3 errors, valid}: every combination in every order for length <= 3 under "
          "{plain, pretty, custom --error-format, explicit --validator}, sampled for length 4-5 and for random schemas "
-         "of the four drafts; no -i (instance on stdin: valid, invalid, not JSON, empty); --error-format incl. the empty "
+         "of the four drafts; no -i (instance on stdin: valid, invalid, not JSON, undecodable, empty); --error-format incl. the empty "
          "string and with --output pretty (usage error); --validator from the four drafts on schemas the drafts disagree "
-         "about; $schema-selected drafts; --base-uri with relative $ref to sibling files (present, missing, not JSON) "
+         "about; $schema-selected drafts; --base-uri with relative $ref to sibling files (present, missing, not JSON, undecodable) "
          "and the same without --base-uri; file names with spaces, quotes and non-ASCII letters; a sample re-run as "
          "`python -m jsonschema`; non-trivial = at least two listed instances in different states")
 
@@ -101,13 +104,27 @@ class Piece:
         return self.pattern if self.pattern is not None else re.escape(self.text)
 
 
-def decode_error_text(text):
-    """str() of the JSONDecodeError the text provokes (computed here, not taken from the CLI)"""
+FILE_ENCODING = locale.getpreferredencoding(False)      # what `open(path)` decodes with
+STDIN_ENCODING = "utf-8"                                # the subprocess runs with PYTHONIOENCODING=utf-8
+
+
+def state_of(content, encoding=None):
+    """("json", value) or ("notJson", exception class name, str(exception)) — computed here with the
+       real decoders on the same characters/bytes, not taken from the CLI"""
+    if isinstance(content, bytes):
+        try:
+            content = content.decode(encoding or FILE_ENCODING)
+        except UnicodeDecodeError as e:
+            return ("notJson", "UnicodeDecodeError", str(e))
     try:
-        json.loads(text)
+        return ("json", json.loads(content))
     except json.JSONDecodeError as e:
-        return str(e)
-    raise ValueError("text is JSON")
+        return ("notJson", "JSONDecodeError", str(e))
+
+
+def undecodable(content, encoding=None):
+    st = state_of(content, encoding)
+    return st[0] == "notJson" and st[1] == "UnicodeDecodeError"
 
 
 def p_not_found(mode, path):
@@ -117,13 +134,13 @@ def p_not_found(mode, path):
     return Piece("err", "{!r} does not exist.\n".format(path), "notFound", path)
 
 
-def p_parse_error(mode, path, text):
-    msg = decode_error_text(text)
+def p_parse_error(mode, path, content):
+    _, cls, msg = state_of(content, STDIN_ENCODING if path == "<stdin>" else None)
     if mode == "pretty":
-        head = "===[JSONDecodeError]===({})===\n\n".format(path)
+        head = "===[{}]===({})===\n\n".format(cls, path)
         # the traceback is not modelled: any lines that are not frame headers, ending with the exception line
         pat = (re.escape(head) + r"Traceback \(most recent call last\):\n(?:(?!===\[)[^\n]*\n)*?"
-               + r"(?:json\.decoder\.)?JSONDecodeError: " + re.escape(msg) + r"\n\n-{29}\n")
+               + r"(?:json\.decoder\.)?" + cls + ": " + re.escape(msg) + r"\n\n-{29}\n")
         return Piece("err", head, "parseError", path, pattern=pat)
     shown = "<stdin>" if path == "<stdin>" else repr(path)
     return Piece("err", "Failed to parse {}: {}\n".format(shown, msg), "parseError", path)
@@ -163,17 +180,11 @@ class Scenario:
         self.label = label
 
     def describe(self):
-        return {"files": self.files, "schema": self.schema_name, "instances": self.instances, "output": self.mode,
+        def show(c):
+            return "bytes:" + c.hex() if isinstance(c, bytes) else c
+        return {"files": {k: show(v) for k, v in self.files.items()}, "schema": self.schema_name, "instances": self.instances, "output": self.mode,
                 "errorFormat": self.fmt, "validator": self.validator, "baseUri": self.base_uri,
-                "stdin": self.stdin_text, "label": self.label}
-
-
-def state_of(text):
-    """("json", value) or ("notJson",)"""
-    try:
-        return ("json", json.loads(text))
-    except json.JSONDecodeError:
-        return ("notJson",)
+                "stdin": show(self.stdin_text), "label": self.label}
 
 
 def in_domain(v):
@@ -185,6 +196,12 @@ def in_domain(v):
 
 
 NOT_JSON = ["{not json", "", "[1, 2", "{\"a\": }", "nope", "[1] trailing"]
+# bytes that are not UTF-8 text: `json.load` raises UnicodeDecodeError, not JSONDecodeError
+UNDECODABLE = [b"\xff\xfe{", "{\"a\": \"caf\xe9\"}".encode("latin-1"), b"[1, 2]\x80", b"\xc3"]
+
+
+def not_json(r):
+    return r.choice(UNDECODABLE) if r.random() < 0.3 else r.choice(NOT_JSON)
 FORMATS = ["{error.message}|", "{file_name}: {error.message}\n", "<{error.validator}:{error.instance!r}>\n", "",
            "{error.instance}: {error.message}\n", "{{x}} {error.message}\n"]
 
@@ -274,7 +291,7 @@ def gen_scenarios(ctx):
             if ch == "M":
                 out.append(("M",))
             elif ch == "N":
-                out.append(("N", r.choice(NOT_JSON)))
+                out.append(("N", not_json(r)))
             elif ch == "V":
                 out.append(("J", r.choice(valid)) if valid else ("J", r.choice(invalid)))
             else:
@@ -307,7 +324,7 @@ def gen_scenarios(ctx):
         schema, valid, invalid = r.choice(BANK)
         shape = "".join(r.choice("MNIV") for _ in range(r.randrange(0, 4)))
         sts = states(shape, valid, invalid) if (shape or r.random() < 0.5) else None
-        text = {"missing": None, "notJson": r.choice(NOT_JSON),
+        text = {"missing": None, "notJson": not_json(r),
                 "invalid": json.dumps(r.choice(BAD_SCHEMAS)),
                 "nonmapping": json.dumps(r.choice(NONMAPPING_SCHEMAS))}[kind]
         cfg = config(r.randrange(4))
@@ -316,8 +333,9 @@ def gen_scenarios(ctx):
     # 3. stdin
     for _ in range(ctx.n(80)):
         schema, valid, invalid = r.choice(BANK)
-        k = r.randrange(4)
-        stdin_text = [json.dumps(r.choice(valid or invalid)), json.dumps(r.choice(invalid or valid)), r.choice(NOT_JSON), ""][k]
+        k = r.randrange(5)
+        stdin_text = [json.dumps(r.choice(valid or invalid)), json.dumps(r.choice(invalid or valid)), not_json(r), "",
+                      r.choice(UNDECODABLE)][k]
         yield b.scenario(json.dumps(schema), None, "stdin", stdin_text=stdin_text, **config(r.randrange(4)))
     # 4. longer lists, sampled
     for _ in range(ctx.n(400)):
@@ -335,7 +353,7 @@ def gen_scenarios(ctx):
         schema, insts = r.choice(DISAGREE)
         sts = [("J", r.choice(insts)) for _ in range(r.randrange(1, 4))]
         if r.random() < 0.3:
-            sts.insert(r.randrange(len(sts) + 1), r.choice([("M",), ("N", r.choice(NOT_JSON))]))
+            sts.insert(r.randrange(len(sts) + 1), r.choice([("M",), ("N", not_json(r))]))
         yield b.scenario(json.dumps(schema), sts, "validator", validator=r.choice(TAGS + [None]),
                          mode=r.choice(["plain", "pretty"]))
     # 7. --base-uri with relative references to sibling files
@@ -353,7 +371,7 @@ def gen_scenarios(ctx):
             if k < 0.12:
                 sts.append(("M",))
             elif k < 0.24:
-                sts.append(("N", r.choice(NOT_JSON)))
+                sts.append(("N", not_json(r)))
             else:
                 v = ctx.g.instance_for(tag, schema) if r.random() < 0.8 else ctx.g.value(2)
                 if in_domain(v):
@@ -365,7 +383,7 @@ def gen_scenarios(ctx):
 
 def base_uri_scenario(ctx, b):
     r = ctx.r
-    kind = r.choice(["sibling", "sibling", "fragment", "missing-sibling", "notjson-sibling", "no-base-uri", "nested", "id-and-base"])
+    kind = r.choice(["sibling", "sibling", "fragment", "missing-sibling", "notjson-sibling", "undecodable-sibling", "no-base-uri", "nested", "id-and-base"])
     files_extra = {"defs.json": json.dumps({"definitions": {"pos": {"type": "integer", "minimum": 1}, "s": {"type": "string"}}}),
                    "int.json": json.dumps({"type": "integer"}),
                    "chain.json": json.dumps({"items": {"$ref": "int.json"}})}
@@ -381,6 +399,9 @@ def base_uri_scenario(ctx, b):
     elif kind == "notjson-sibling":
         files_extra["broken.json"] = "{not json"
         schema, valid, invalid = {"properties": {"a": {"$ref": "broken.json"}}}, [{}, 1], [{"a": 1}]
+    elif kind == "undecodable-sibling":
+        files_extra["bytes.json"] = r.choice(UNDECODABLE)
+        schema, valid, invalid = {"properties": {"a": {"$ref": "bytes.json"}}}, [{}, 1], [{"a": 1}]
     elif kind == "id-and-base":
         schema = {"$id": "sub/root.json", "properties": {"a": {"$ref": "../int.json"}, "b": {"$ref": "#/definitions/t"}},
                   "definitions": {"t": {"type": "null"}}}
@@ -393,7 +414,7 @@ def base_uri_scenario(ctx, b):
         if ch == "M":
             sts.append(("M",))
         elif ch == "N":
-            sts.append(("N", r.choice(NOT_JSON)))
+            sts.append(("N", not_json(r)))
         else:
             sts.append(("J", r.choice(valid if ch == "V" else invalid)))
     sc = b.scenario(json.dumps(schema), sts, "base-uri:" + kind, mode=r.choice(["plain", "pretty"]),
@@ -449,9 +470,19 @@ def base_uri_of(sc, d):
 
 def write_files(sc, d):
     os.makedirs(d)
-    for nm, text in sc.files.items():
-        with open(os.path.join(d, nm), "w", encoding="utf-8") as f:
-            f.write(text)
+    for nm, content in sc.files.items():
+        if isinstance(content, bytes):
+            with open(os.path.join(d, nm), "wb") as f:
+                f.write(content)
+        else:
+            with open(os.path.join(d, nm), "w", encoding="utf-8") as f:
+                f.write(content)
+
+
+def stdin_stream(content):
+    if isinstance(content, bytes):
+        return io.TextIOWrapper(io.BytesIO(content), encoding=STDIN_ENCODING)
+    return io.StringIO(content)
 
 
 def run_inprocess(sc, d):
@@ -467,7 +498,7 @@ def run_inprocess(sc, d):
     res = {"usage": False, "arguments": dict(arguments)}
     try:
         code = real_cli.run(arguments=arguments, stdout=rec.stream("out"), stderr=rec.stream("err"),
-                            stdin=io.StringIO(sc.stdin_text))
+                            stdin=stdin_stream(sc.stdin_text))
         res["end"] = ["exit", int(code)]
         res["status"] = int(code)
         res["code_type"] = type(code).__name__
@@ -483,9 +514,10 @@ def run_subprocess(sc, d):
     env = dict(os.environ)
     env["PYTHONPATH"] = impl.REPO
     env["PYTHONIOENCODING"] = "utf-8"
-    p = subprocess.run([PYTHON, "-m", "jsonschema"] + argv_of(sc, d), input=sc.stdin_text, env=env,
-                       stdout=subprocess.PIPE, stderr=subprocess.PIPE, text=True, encoding="utf-8", timeout=60, cwd=d)
-    return p.returncode, p.stdout, p.stderr
+    data = sc.stdin_text if isinstance(sc.stdin_text, bytes) else sc.stdin_text.encode("utf-8")
+    p = subprocess.run([PYTHON, "-m", "jsonschema"] + argv_of(sc, d), input=data, env=env,
+                       stdout=subprocess.PIPE, stderr=subprocess.PIPE, timeout=60, cwd=d)
+    return p.returncode, p.stdout.decode("utf-8"), p.stderr.decode("utf-8")
 
 
 # ---------------------------------------------------------------------------------------------
@@ -522,7 +554,7 @@ def library_view(sc, d):
         if text is None:
             per.append(("missing", [p_not_found(mode, path)], None))
             continue
-        st = state_of(text)
+        st = state_of(text, STDIN_ENCODING if path == "<stdin>" else None)
         if st[0] == "notJson":
             per.append(("notJson", [p_parse_error(mode, path, text)], None))
             continue
@@ -556,6 +588,11 @@ def monitor(ctx, sc, d, got, case):
         res.fail("cli:usage", "plain mode without --error-format did not get the default format", case)
     view = library_view(sc, d)
     out, err, log = got["out"], got["err"], got["log"]
+    if got["end"] == ["raised", ["crash", "UnicodeDecodeError"]]:
+        # the library never raises this (retrieval failures are wrapped in RefResolutionError): it is `load`
+        res.fail("cli:undecodable-file-aborts", "a file that is not valid text aborted the run with UnicodeDecodeError "
+                 "(no parse-error diagnostic, the remaining instances are not processed)", case)
+        return view
     if view[0] == "schema-crash":
         if got["end"] != ["raised", impl.exc_json(view[1])] or out or err:
             res.fail("cli:exception", "the library raises %s on the schema, run() gave %r" % (type(view[1]).__name__, got["end"]), case)
@@ -632,7 +669,7 @@ def payload_of(sc, d):
         if st[0] == "json" and not in_domain(st[1]):
             return None
         fs.append([os.path.join(d, nm), "notJson" if st[0] == "notJson" else ["json", st[1]]])
-    st = state_of(sc.stdin_text)
+    st = state_of(sc.stdin_text, STDIN_ENCODING)
     return {"schemaPath": os.path.join(d, sc.schema_name), "fs": fs,
             "stdin": "notJson" if st[0] == "notJson" else ["json", st[1]],
             "instances": None if sc.instances is None else [os.path.join(d, nm) for nm in sc.instances],
@@ -782,6 +819,7 @@ def campaign(ctx):
                 else:
                     res.distribution["usage-error"] += 1
                 res.distribution["mode:" + sc.mode] += 1
+                res.distribution["file:undecodable"] += sum(1 for c in list(sc.files.values()) + [sc.stdin_text] if undecodable(c))
                 if not got["usage"]:
                     res.distribution["end:" + (got["end"][0] if got["end"][0] == "raised" else "exit-%d" % got["end"][1])] += 1
                 key = khash([sc.files.get(sc.schema_name), [sc.files.get(nm) for nm in (sc.instances or [])], sc.instances is None,
